@@ -1,7 +1,7 @@
 (* Props/C01.v — Formula operators keep their Excel meaning.  Statements only. *)
 Require Import X2P.Base.Prelude X2P.Base.F64 X2P.Base.PyCmp X2P.Base.PyNum X2P.Base.PyArith.
-Require Import X2P.Model.Peg X2P.Model.Emit X2P.Spec.Formula X2P.Spec.Shape X2P.Corr.C01.
-Require Import X2P.Proofs.FormulaSweep X2P.Proofs.FormulaProofs X2P.Proofs.FormulaRefute.
+Require Import X2P.Model.Peg X2P.Model.Emit X2P.Gen.Grammar X2P.Spec.Formula X2P.Spec.Shape X2P.Corr.C01.
+Require Import X2P.Proofs.FormulaSweep X2P.Proofs.FormulaProofs X2P.Proofs.FormulaRefute X2P.Proofs.FormulaCore.
 Open Scope string_scope.
 
 (* the precedence / associativity table, kernel-exhaustive: for EVERY sequence of 1..6 tokens over {atom + - * / & < % ( )} that Excel
@@ -22,6 +22,23 @@ Theorem C01_table_inhabited :
   List.length (filter grouped_right (seqs 6)) = 565%nat /\
   List.length (filter (fun s => match xparse (toks_of s) with Some _ => true | None => false end) (seqs 6)) = 1062%nat.
 Proof. exact sweep_counts. Qed.
+
+(* UNBOUNDED: for every expression tree built from operands (literals, same-sheet cell references), parentheses and binary + - * / — of
+   any size and nesting depth — the emitted text, read as a flat token string, IS the token string of the formula (atoms translated,
+   every operator and bracket where it was).  With C05_whole_or_reject (yield t = the formula's tokens) Python is given exactly the
+   string Excel reads; that Python's and Excel's grammars group such a string alike is the sweep above restricted to + - * /. *)
+Theorem C01_core_emit_identity : forall fuel fc t c,
+  core fc t = true -> emit fuel t = EOk c -> flat c = map view_tok (yield t).
+Proof. exact core_emit_identity. Qed.
+(* non-vacuity: the tree of =(1+2)*3-4/(5-6) is core and is emitted *)
+Theorem C01_core_inhabited :
+  match tokens_of "=(1+2)*3-4/(5-6)" with
+  | Some (Some ts) =>
+      match ast_builder grammar_table is_cc N_ExpressionToken PARSE_FUEL ts with
+      | AOk t => core 50 t && match emit 200 t with EOk _ => true | _ => false end
+      | _ => false end
+  | _ => false end = true.
+Proof. exact core_example. Qed.
 
 (* a blank operand counts as 0: it behaves exactly as the integer 0 under + - * / and the unary signs, on either side, against EVERY value *)
 Theorem C01_blank_is_zero : forall o y,
